@@ -100,12 +100,20 @@ pub fn calculate_reward(my_speed: u128, dosc_speed: u128, difficulty: u32, tip91
 pub fn preseal_melmint<C: ContentAddrStore>(state: UnsealedState<C>) -> UnsealedState<C> {
     let state = create_builtins(state);
     assert!(state.pools.val_iter().count() >= 2);
+    #[cfg(melstf_verif)]
+    crate::verif::phase("after-builtins", &state);
     let state = process_swaps(state);
     assert!(state.pools.val_iter().count() >= 2);
+    #[cfg(melstf_verif)]
+    crate::verif::phase("after-swaps", &state);
     let state = process_deposits(state);
     assert!(state.pools.val_iter().count() >= 2);
+    #[cfg(melstf_verif)]
+    crate::verif::phase("after-deposits", &state);
     let state = process_withdrawals(state);
     assert!(state.pools.val_iter().count() >= 2);
+    #[cfg(melstf_verif)]
+    crate::verif::phase("after-withdrawals", &state);
     process_pegging(state)
 }
 
